@@ -137,6 +137,15 @@ def grid_case(ctx, r):
     for name, f in fams.items():
         if mv.capa_penalty_factory(name) is not getattr(mv, f"{name}_mvcapa_penalty"):
             ctx.violation(sub, "factory", f"capa_penalty_factory({name!r}) returned another function", r)
+    try:
+        mv.capa_penalty_factory("no-such-penalty")
+        ctx.violation(sub, "factory", "capa_penalty_factory accepted an unknown penalty name", r)
+    except ValueError:
+        pass
+    except Exception as ex:
+        ctx.violation(sub, "factory", f"capa_penalty_factory(unknown) raised {type(ex).__name__}", r)
+    if mv.capa_penalty_factory(mv.capa_penalty) is not mv.capa_penalty:
+        ctx.violation(sub, "factory", "capa_penalty_factory did not return a callable as it is", r)
     if p >= 2 and s not in (0.0, 1.0):
         ctx.nt(digest(r))
     ctx.sample({"grid_point": label})
